@@ -87,14 +87,25 @@ Theorem C13_backoff_step_equals_product_up_to_rounding : forall last fn fd,
 Proof. exact backoff_step_accuracy. Qed.
 Print Assumptions C13_backoff_step_equals_product_up_to_rounding.
 
+(* a jitter FACTOR shifts the delay by at most jitterFactor * delay, up to float32 rounding: util.RandomDelayFactor in float32,
+   every positive delay, every float32 jitter factor in (0, 1), every draw in [0, 1):
+   |jittered - delay| <= jitterFactor * delay + delay / 2^20 + 1 ns *)
+Theorem C13_jitter_factor_envelope : forall delay mJ sJ random,
+  0 < delay -> 2 ^ 23 <= mJ < 2 ^ 24 -> fst (bval mJ sJ) < snd (bval mJ sJ) ->
+  wf random -> 0 <= fst random < snd random ->
+  let jf := bval mJ sJ in
+  2 ^ 20 * snd jf * Z.abs (random_delay_factor delay jf random - delay)
+  <= 2 ^ 20 * delay * fst jf + delay * snd jf + 2 ^ 20 * snd jf.
+Proof. exact jitter_factor_envelope. Qed.
+Print Assumptions C13_jitter_factor_envelope.
+
 (* premises are satisfiable: 100 ms = 390625 * 2^8 ns has 19 significant bits *)
 Example C13_100ms_is_representable :
   let mB := 390625 * 2 ^ 5 in let sB := -3 in
   2 ^ 23 <= mB < 2 ^ 24 /\ fle (100000000, 1) (bval mB sB) /\ fle (bval mB sB) (100000000, 1).
 Proof. vm_compute. repeat split; discriminate. Qed.
 
-(* Partial: the jitter-FACTOR envelope |jittered - base| <= jitterFactor*base (+ float32 rounding of three operations) is not
-   proved: it is evaluated by the checker on every observed delay of every run (a test, not a theorem).  "Backoff never
+(* "Backoff never
    decreases" holds exactly on float32-representable delays (theorem above) and otherwise up to the rounding bound of
    C13_backoff_step_equals_product_up_to_rounding (e.g. 16777217 ns with factor 1 gives 16777216 ns).
    "The next attempt never starts before the scheduled delay has elapsed" is Model/Exec.v's retry loop
